@@ -1169,7 +1169,7 @@ impl FatVolume {
         let new_cluster = match self.find_next_free_cluster(block_cache, start_cluster, end_cluster)
         {
             Ok(cluster) => cluster,
-            Err(_) if start_cluster.0 > RESERVED_ENTRIES => {
+            Err(Error::NotEnoughSpace) if start_cluster.0 > RESERVED_ENTRIES => {
                 debug!(
                     "Retrying, finding next free between {:?}..={:?}",
                     ClusterId(RESERVED_ENTRIES),
